@@ -285,7 +285,10 @@ class Resolver:
                 if found:
                     break
         out = _uniq(out)
-        self._attr_cache[key] = out
+        if _depth <= 1 or out:
+            self._attr_cache[key] = out
+        else:
+            self._attr_cache.pop(key, None)      # possibly truncated by the depth limit: do not poison the cache
         return out
 
     # ------------------------------------------------------------ calls
